@@ -184,6 +184,8 @@ def c15_rings(tier, seed):
     for chords in (0, 2):
         depths = []
         for n in sizes:
+            import resource
+            c0 = resource.getrusage(resource.RUSAGE_CHILDREN)
             try:
                 p = subprocess.run([P.HARNESS, "ring", str(n), str(chords), str(128 * 1024)],
                                    stdout=subprocess.PIPE, stderr=subprocess.PIPE, timeout=600)
@@ -191,7 +193,10 @@ def c15_rings(tier, seed):
                 rc = p.returncode
             except subprocess.TimeoutExpired:
                 out, rc = "timeout", "timeout"
+            c1 = resource.getrusage(resource.RUSAGE_CHILDREN)
             m = dict(re.findall(r"(\w+)=(\S+)", out))
+            # CPU time of the child (build + teardown), in microseconds: immune to scheduling noise
+            m["cpu_us"] = str(int(((c1.ru_utime - c0.ru_utime) + (c1.ru_stime - c0.ru_stime)) * 1e6))
             rows.append({"n": n, "chords": chords, "rc": rc, **m})
             edges = n * (1 + chords)
             ok = (rc == 0 and m.get("destroyed") == str(n) and m.get("visits") == str(n)
@@ -205,32 +210,33 @@ def c15_rings(tier, seed):
                              "disc": "1", "d4": "0", "shrinkable": False})
         # time must grow linearly with objects + adoptions: compare two sizes of the same shape (a ratio
         # of the same machine's timings, best of three; quadratic work shows as the square of the size ratio)
-        ok_rows = {r["n"]: r for r in rows if r["chords"] == chords and r.get("rc") == 0 and r.get("us")}
+        ok_rows = {r["n"]: r for r in rows if r.get("chords") == chords and r.get("rc") == 0 and r.get("cpu_us") and "n" in r}
         big = [n for n in sizes if n in ok_rows]
         if len(big) >= 2 and big[-2] >= 1000:
             n1, n2 = big[-2], big[-1]
 
             def best(n, first):
+                import resource
                 ts = [int(first)]
                 for _ in range(2):
                     try:
-                        q = subprocess.run([P.HARNESS, "ring", str(n), str(chords), str(128 * 1024)],
-                                           stdout=subprocess.PIPE, stderr=subprocess.PIPE, timeout=600)
-                        mm = dict(re.findall(r"(\w+)=(\S+)", q.stdout.decode()))
-                        if "us" in mm:
-                            ts.append(int(mm["us"]))
+                        c0 = resource.getrusage(resource.RUSAGE_CHILDREN)
+                        subprocess.run([P.HARNESS, "ring", str(n), str(chords), str(128 * 1024)],
+                                       stdout=subprocess.PIPE, stderr=subprocess.PIPE, timeout=600)
+                        c1 = resource.getrusage(resource.RUSAGE_CHILDREN)
+                        ts.append(int(((c1.ru_utime - c0.ru_utime) + (c1.ru_stime - c0.ru_stime)) * 1e6))
                     except subprocess.TimeoutExpired:
                         pass
                 return max(1, min(ts))
-            t1, t2 = int(ok_rows[n1]["us"]), int(ok_rows[n2]["us"])
+            t1, t2 = int(ok_rows[n1]["cpu_us"]), int(ok_rows[n2]["cpu_us"])
             limit = 3.0 * (n2 / n1)
             if t2 / max(t1, 1) > limit:
                 t1, t2 = best(n1, t1), best(n2, t2)
             rows.append({"shape": "time-linearity", "chords": chords, "n1": n1, "n2": n2, "us1": t1, "us2": t2,
                          "ratio": round(t2 / max(t1, 1), 2), "limit": limit})
-            if t2 / max(t1, 1) > limit and t2 > 50000:
+            if t2 / max(t1, 1) > limit and t2 > 300000:
                 hits.append({"type": "oracle", "hid": "ring", "line": "ring sizes %d -> %d chords=%d" % (n1, n2, chords), "idx": 0,
-                             "oracle": "C15:superlinear-time:%dus->%dus" % (t1, t2), "disc": "1", "d4": "0", "shrinkable": False})
+                             "oracle": "C15:superlinear-cpu-time:%dus->%dus" % (t1, t2), "disc": "1", "d4": "0", "shrinkable": False})
         if depths and max(depths) > min(depths) + 1024:
             hits.append({"type": "oracle", "hid": "ring", "line": "ring sizes %s chords=%d" % (sizes, chords), "idx": 0,
                          "oracle": "C15:stack-depth-grows-with-N:%s" % depths, "disc": "1", "d4": "0", "shrinkable": False})
@@ -327,6 +333,6 @@ def extra_checks(pid, cfg, tier, seed):
     if pid == "C15":
         r = _cached("c15-%s" % tier, lambda: c15_rings(tier, seed))
         return {"oracle_hits": r["hits"], "evaluations": len(r["rows"]), "distinct_nontrivial": len(r["rows"]),
-                "samples": ["ring n=%s chords=%s -> %s" % (x["n"], x["chords"], {k: x.get(k) for k in ("destroyed", "traces", "pops", "visits", "depth", "us")}) for x in r["rows"][:3]],
+                "samples": ["ring n=%s chords=%s -> %s" % (x["n"], x["chords"], {k: x.get(k) for k in ("destroyed", "traces", "pops", "visits", "depth", "us")}) for x in [y for y in r["rows"] if "n" in y][:3]],
                 "evidence": {"rings_on_128KiB_stack (supporting measurement, not proof)": r["rows"]}}
     return {}
